@@ -2,74 +2,79 @@ import A816.Proofs.Unrelated
 /-!
 # An unrelated definition does not change the output (helper lemmas for C08)
 
-`RZ z r r'`: the resolvers differ only in what their scopes hold for the name `z` (entries of `symbols` / `labels`); no
-scope is a named scope (named scopes export their symbols under qualified names when they are left — not covered here).
-Every pass step and every emission step of a node that does not mention `z` takes `RZ`-related resolvers to the same
-outcome: the same error, or the same address / bytes and `RZ`-related resolvers.
+`Z` is a set of names closed under qualification (`Z n → Z (s ++ "." ++ n)`: what a definition of `z` becomes when named
+scopes export it).  `RZ Z r r'`: the resolvers differ only in what their scopes hold for names in `Z` (entries of `symbols` /
+`labels`).  Every pass step and every emission step of a node that mentions no name of `Z` takes `RZ`-related resolvers to
+the same outcome: the same error, or the same address / bytes and `RZ`-related resolvers — including leaving a named
+scope, whose exports are compared key by key (`fold_congr`; the symbol lists hold each key once).
 -/
 namespace A816.Unrel
 open A816 Resolver
 
-/-- scope records that differ only in the entries for `z` of `symbols` and `labels` -/
-structure SameZ (z : String) (a b : ScopeRec) : Prop where
+/-- the keys of an association list are pairwise different (dict semantics: `ainsert` replaces in place) -/
+def NodupKeys {β} (l : List (String × β)) : Prop := (l.map Prod.fst).Nodup
+
+/-- scope records that differ only in the entries of `symbols` and `labels` for names in `Z` -/
+structure SameZ (Z : String → Prop) (a b : ScopeRec) : Prop where
   kind : a.kind = b.kind
   parent : a.parent = b.parent
   code : a.codeSymbols = b.codeSymbols
   table : a.table = b.table
-  syms : ∀ n, n ≠ z → alookup n a.symbols = alookup n b.symbols
-  labs : ∀ n, n ≠ z → alookup n a.labels = alookup n b.labels
-  plainKind : ∀ name, a.kind ≠ .named name
+  syms : ∀ n, ¬ Z n → alookup n a.symbols = alookup n b.symbols
+  labs : ∀ n, ¬ Z n → alookup n a.labels = alookup n b.labels
+  nda : NodupKeys a.symbols
+  ndb : NodupKeys b.symbols
 
-theorem SameZ.sameBut {z : String} {a b : ScopeRec} (h : SameZ z a b) : SameBut z a b := ⟨h.parent, h.code, h.syms⟩
+theorem SameZ.sameBut {Z : String → Prop} {a b : ScopeRec} (h : SameZ Z a b) : SameBut Z a b := ⟨h.parent, h.code, h.syms⟩
 
-/-- resolvers that differ only in what their scopes hold for `z` -/
-structure RZ (z : String) (r r' : Resolver) : Prop where
+/-- resolvers that differ only in what their scopes hold for names in `Z` -/
+structure RZ (Z : String → Prop) (r r' : Resolver) : Prop where
   eq : ∃ sc, r' = { r with scopes := sc }
   size : r'.scopes.size = r.scopes.size
-  sc : ∀ i, SameZ z (r.scopes.getD i default) (r'.scopes.getD i default)
+  sc : ∀ i, SameZ Z (r.scopes.getD i default) (r'.scopes.getD i default)
 
-variable {z : String}
+variable {Z : String → Prop}
 
-theorem RZ.current {r r' : Resolver} (h : RZ z r r') : r'.current = r.current := by
+theorem RZ.current {r r' : Resolver} (h : RZ Z r r') : r'.current = r.current := by
   obtain ⟨sc, rfl⟩ := h.eq; rfl
-theorem RZ.lastUsed {r r' : Resolver} (h : RZ z r r') : r'.lastUsed = r.lastUsed := by
+theorem RZ.lastUsed {r r' : Resolver} (h : RZ Z r r') : r'.lastUsed = r.lastUsed := by
   obtain ⟨sc, rfl⟩ := h.eq; rfl
-theorem RZ.pc {r r' : Resolver} (h : RZ z r r') : r'.pc = r.pc := by
+theorem RZ.pc {r r' : Resolver} (h : RZ Z r r') : r'.pc = r.pc := by
   obtain ⟨sc, rfl⟩ := h.eq; rfl
-theorem RZ.reloc {r r' : Resolver} (h : RZ z r r') : r'.reloc = r.reloc := by
+theorem RZ.reloc {r r' : Resolver} (h : RZ Z r r') : r'.reloc = r.reloc := by
   obtain ⟨sc, rfl⟩ := h.eq; rfl
-theorem RZ.getBus {r r' : Resolver} (h : RZ z r r') : r'.getBus = r.getBus := by
+theorem RZ.getBus {r r' : Resolver} (h : RZ Z r r') : r'.getBus = r.getBus := by
   obtain ⟨sc, rfl⟩ := h.eq; rfl
 
-theorem RZ.cur {r r' : Resolver} (h : RZ z r r') : SameZ z r.cur r'.cur := by
+theorem RZ.cur {r r' : Resolver} (h : RZ Z r r') : SameZ Z r.cur r'.cur := by
   unfold Resolver.cur Resolver.scopeAt
   rw [h.current]; exact h.sc _
 
-theorem RZ.valueFor {r r' : Resolver} (h : RZ z r r') (n : String) (hn : n ≠ z) : r'.valueFor n = r.valueFor n := by
+theorem RZ.valueFor {r r' : Resolver} (h : RZ Z r r') (n : String) (hn : ¬ Z n) : r'.valueFor n = r.valueFor n := by
   unfold Resolver.valueFor
   rw [h.size, h.current]
-  exact (valueForAux_sameBut z n hn _ _ (fun i => (h.sc i).sameBut) _ _).symm
+  exact (valueForAux_sameBut Z n hn _ _ (fun i => (h.sc i).sameBut) _ _).symm
 
-theorem RZ.look {r r' : Resolver} (h : RZ z r r') (n : String) (hn : n ≠ z) : r'.look n = r.look n := by
+theorem RZ.look {r r' : Resolver} (h : RZ Z r r') (n : String) (hn : ¬ Z n) : r'.look n = r.look n := by
   unfold Resolver.look; rw [h.valueFor n hn]
 
 /-- moving to another current scope keeps the relation -/
-theorem RZ.withCurrent {r r' : Resolver} (h : RZ z r r') (c : Nat) :
-    RZ z { r with current := c } { r' with current := c } := by
+theorem RZ.withCurrent {r r' : Resolver} (h : RZ Z r r') (c : Nat) :
+    RZ Z { r with current := c } { r' with current := c } := by
   obtain ⟨sc, rfl⟩ := h.eq
   exact ⟨⟨sc, rfl⟩, h.size, h.sc⟩
 
-/-- `z` does not occur as an identifier of the expression -/
-def FreeE (z : String) (e : PExpr) : Prop := ENode.term .identifier z ∉ e.nodes
+/-- no name of `Z` occurs as an identifier of the expression -/
+def FreeE (Z : String → Prop) (e : PExpr) : Prop := ∀ n, ENode.term .identifier n ∈ e.nodes → ¬ Z n
 
-theorem RZ.evalP {r r' : Resolver} (h : RZ z r r') (env : Env) (e : PExpr) (hz : FreeE z e) :
+theorem RZ.evalP {r r' : Resolver} (h : RZ Z r r') (env : Env) (e : PExpr) (hz : FreeE Z e) :
     evalP env r' e = evalP env r e := by
   unfold A816.evalP
   apply evalTokens_congr
   intro n hn
-  exact h.look n (fun hx => hz (by rw [← hx]; exact hn))
+  exact h.look n (hz n hn)
 
-theorem RZ.getValue {r r' : Resolver} (h : RZ z r r') (env : Env) (e : PExpr) (info : Tok) (hz : FreeE z e) :
+theorem RZ.getValue {r r' : Resolver} (h : RZ Z r r') (env : Env) (e : PExpr) (info : Tok) (hz : FreeE Z e) :
     getValue env r' e info = getValue env r e info := by
   unfold A816.getValue; rw [h.evalP env e hz]
 
@@ -89,6 +94,124 @@ theorem alookup_ainsert_congr {β} (k : String) (v : β) (l l' : List (String ×
   · subst hnk; rw [alookup_ainsert_self, alookup_ainsert_self]
   · rw [alookup_ainsert_ne' k n v l hnk, alookup_ainsert_ne' k n v l' hnk, h]
 
+/-! ### association lists with pairwise different keys; the exports of a named scope -/
+
+theorem alookup_isSome_iff {β} (k : String) (l : List (String × β)) : (alookup k l).isSome = true ↔ k ∈ l.map Prod.fst := by
+  induction l with
+  | nil => simp [alookup]
+  | cons a rest ih =>
+    obtain ⟨ka, va⟩ := a
+    simp only [alookup, List.map_cons, List.mem_cons]
+    by_cases hk : (ka == k) = true
+    · have : ka = k := by simpa using hk
+      simp [hk, this]
+    · have : ¬ k = ka := fun e => hk (by simp [e])
+      simp only [hk, Bool.false_eq_true, ↓reduceIte, ih, this, false_or]
+
+theorem keys_ainsert {β} (k : String) (v : β) (l : List (String × β)) :
+    (ainsert k v l).map Prod.fst = if (alookup k l).isSome then l.map Prod.fst else l.map Prod.fst ++ [k] := by
+  induction l with
+  | nil => simp [ainsert, alookup]
+  | cons a rest ih =>
+    obtain ⟨ka, va⟩ := a
+    simp only [ainsert, alookup]
+    by_cases hk : (ka == k) = true
+    · simp [hk]
+    · simp only [hk, Bool.false_eq_true, ↓reduceIte, List.map_cons, ih]
+      split <;> simp
+
+theorem nodup_ainsert {β} (k : String) (v : β) (l : List (String × β)) (h : NodupKeys l) : NodupKeys (ainsert k v l) := by
+  unfold NodupKeys at h ⊢
+  rw [keys_ainsert]
+  split
+  · exact h
+  · rename_i hn
+    have : k ∉ l.map Prod.fst := fun hm => hn ((alookup_isSome_iff k l).mpr hm)
+    exact List.nodup_append.mpr ⟨h, by simp, fun a ha b hb => by
+      simp only [List.mem_singleton] at hb; subst hb; intro e; subst e; exact this ha⟩
+
+theorem dotted_inj (a k1 k2 : String) (h : a ++ "." ++ k1 = a ++ "." ++ k2) : k1 = k2 := by
+  have := congrArg String.toList h
+  simp only [String.toList_append, List.append_assoc] at this
+  exact String.toList_inj.mp (List.append_cancel_left (List.append_cancel_left this))
+
+/-- `restore_scope(exports=True)`: the symbols of the scope that is left, written under qualified keys -/
+def exportFold (name : String) (src acc : List (String × Int)) : List (String × Int) :=
+  src.foldl (fun acc (kv : String × Int) => ainsert (name ++ "." ++ kv.1) kv.2 acc) acc
+
+theorem exportFold_other (name m : String) : ∀ (l acc : List (String × Int)),
+    (∀ k ∈ l.map Prod.fst, name ++ "." ++ k ≠ m) → alookup m (exportFold name l acc) = alookup m acc := by
+  intro l
+  induction l with
+  | nil => intro acc _; rfl
+  | cons kv rest ih =>
+    intro acc h
+    unfold exportFold
+    simp only [List.foldl_cons]
+    have := ih (ainsert (name ++ "." ++ kv.1) kv.2 acc) (fun k hk => h k (by simp only [List.map_cons, List.mem_cons]; exact Or.inr hk))
+    unfold exportFold at this
+    rw [this]
+    exact alookup_ainsert_ne' _ m _ _ (fun e => h kv.1 (by simp) e.symm)
+
+theorem exportFold_hit (name : String) : ∀ (l acc : List (String × Int)) (k : String) (v : Int), NodupKeys l →
+    alookup k l = some v → alookup (name ++ "." ++ k) (exportFold name l acc) = some v := by
+  intro l
+  induction l with
+  | nil => intro acc k v _ h; simp [alookup] at h
+  | cons kv rest ih =>
+    intro acc k v hn h
+    obtain ⟨k0, v0⟩ := kv
+    unfold NodupKeys at hn
+    simp only [List.map_cons, List.nodup_cons] at hn
+    unfold exportFold
+    simp only [List.foldl_cons]
+    simp only [alookup] at h
+    by_cases hk : (k0 == k) = true
+    · have e : k0 = k := by simpa using hk
+      simp only [hk, ↓reduceIte, Option.some.injEq] at h
+      subst e; subst h
+      have := exportFold_other name (name ++ "." ++ k0) rest (ainsert (name ++ "." ++ k0) v0 acc)
+        (fun k' hk' e' => hn.1 (by rw [dotted_inj name k' k0 e'] at hk'; exact hk'))
+      unfold exportFold at this
+      rw [this]
+      exact alookup_ainsert_self _ _ _
+    · simp only [hk, Bool.false_eq_true, ↓reduceIte] at h
+      have := ih (ainsert (name ++ "." ++ k0) v0 acc) k v hn.2 h
+      unfold exportFold at this
+      exact this
+
+theorem nodup_exportFold (name : String) : ∀ (l acc : List (String × Int)), NodupKeys acc → NodupKeys (exportFold name l acc) := by
+  intro l
+  induction l with
+  | nil => intro acc h; exact h
+  | cons kv rest ih =>
+    intro acc h
+    unfold exportFold
+    simp only [List.foldl_cons]
+    exact ih _ (nodup_ainsert _ _ _ h)
+
+/-- the exports of two scopes that agree off `Z`, written into two lists that agree off `Z`, agree off `Z` -/
+theorem exportFold_congr (hZ : ∀ s n, Z n → Z (s ++ "." ++ n)) (name : String) (l l' acc acc' : List (String × Int))
+    (hn : NodupKeys l) (hn' : NodupKeys l') (hl : ∀ k, ¬ Z k → alookup k l = alookup k l')
+    (ha : ∀ m, ¬ Z m → alookup m acc = alookup m acc') :
+    ∀ m, ¬ Z m → alookup m (exportFold name l acc) = alookup m (exportFold name l' acc') := by
+  intro m hm
+  by_cases hex : ∃ k ∈ l.map Prod.fst, name ++ "." ++ k = m
+  · obtain ⟨k, hk, rfl⟩ := hex
+    have hzk : ¬ Z k := fun hz => hm (hZ name k hz)
+    have hs := (alookup_isSome_iff k l).mpr hk
+    cases hv : alookup k l with
+    | none => rw [hv] at hs; cases hs
+    | some v =>
+      rw [exportFold_hit name l acc k v hn hv, exportFold_hit name l' acc' k v hn' (by rw [← hl k hzk]; exact hv)]
+  · have h1 : ∀ k ∈ l.map Prod.fst, name ++ "." ++ k ≠ m := fun k hk e => hex ⟨k, hk, e⟩
+    have h2 : ∀ k ∈ l'.map Prod.fst, name ++ "." ++ k ≠ m := by
+      intro k hk e
+      have hzk : ¬ Z k := fun hz => hm (by rw [← e]; exact hZ name k hz)
+      have : (alookup k l).isSome = true := by rw [hl k hzk]; exact (alookup_isSome_iff k l').mpr hk
+      exact hex ⟨k, (alookup_isSome_iff k l).mp this, e⟩
+    rw [exportFold_other name m l acc h1, exportFold_other name m l' acc' h2, ha m hm]
+
 theorem getD_modify' (a : Array ScopeRec) (p k : Nat) (f : ScopeRec → ScopeRec) :
     (a.modify p f).getD k default = (if p = k ∧ k < a.size then f (a.getD k default) else a.getD k default) := by
   simp only [Array.getD_eq_getD_getElem?, Array.getElem?_modify]
@@ -101,12 +224,12 @@ theorem getD_modify' (a : Array ScopeRec) (p k : Nat) (f : ScopeRec → ScopeRec
   · simp [hpk]
 
 /-- modifying the current scope by functions that respect `SameZ` -/
-theorem RZ.modifyCur {r r' : Resolver} (h : RZ z r r') (f : ScopeRec → ScopeRec)
-    (hf : ∀ a b, SameZ z a b → SameZ z (f a) (f b)) : RZ z (r.modifyCur f) (r'.modifyCur f) := by
+theorem RZ.modifyCur {r r' : Resolver} (h : RZ Z r r') (f : ScopeRec → ScopeRec)
+    (hf : ∀ a b, SameZ Z a b → SameZ Z (f a) (f b)) : RZ Z (r.modifyCur f) (r'.modifyCur f) := by
   obtain ⟨sc, rfl⟩ := h.eq
   refine ⟨⟨sc.modify r.current f, rfl⟩, by simp [Resolver.modifyCur]; exact h.size, ?_⟩
   intro i
-  show SameZ z ((r.scopes.modify r.current f).getD i default) ((sc.modify r.current f).getD i default)
+  show SameZ Z ((r.scopes.modify r.current f).getD i default) ((sc.modify r.current f).getD i default)
   rw [getD_modify', getD_modify']
   have hs : sc.size = r.scopes.size := h.size
   by_cases hc : r.current = i ∧ i < r.scopes.size
@@ -115,43 +238,44 @@ theorem RZ.modifyCur {r r' : Resolver} (h : RZ z r r') (f : ScopeRec → ScopeRe
   · rw [if_neg hc, if_neg (fun x => hc ⟨x.1, by rw [← hs]; exact x.2⟩)]
     exact h.sc i
 
-theorem RZ.addSymbol {r r' : Resolver} (h : RZ z r r') (n : String) (v : Int) : RZ z (r.addSymbol n v) (r'.addSymbol n v) := by
+theorem RZ.addSymbol {r r' : Resolver} (h : RZ Z r r') (n : String) (v : Int) : RZ Z (r.addSymbol n v) (r'.addSymbol n v) := by
   unfold Resolver.addSymbol
   apply h.modifyCur
   intro a b hab
   exact ⟨hab.kind, hab.parent, hab.code, hab.table, fun m hm => alookup_ainsert_congr n v _ _ m (hab.syms m hm), hab.labs,
-    hab.plainKind⟩
+    nodup_ainsert _ _ _ hab.nda, nodup_ainsert _ _ _ hab.ndb⟩
 
-theorem RZ.addLabel {r r' : Resolver} (h : RZ z r r') (n : String) (v : Int) : RZ z (r.addLabel n v) (r'.addLabel n v) := by
+theorem RZ.addLabel {r r' : Resolver} (h : RZ Z r r') (n : String) (v : Int) : RZ Z (r.addLabel n v) (r'.addLabel n v) := by
   unfold Resolver.addLabel
   apply h.modifyCur
   intro a b hab
   exact ⟨hab.kind, hab.parent, hab.code, hab.table, fun m hm => alookup_ainsert_congr n v _ _ m (hab.syms m hm),
-    fun m hm => alookup_ainsert_congr n v _ _ m (hab.labs m hm), hab.plainKind⟩
+    fun m hm => alookup_ainsert_congr n v _ _ m (hab.labs m hm), nodup_ainsert _ _ _ hab.nda, nodup_ainsert _ _ _ hab.ndb⟩
 
-/-- the definition of `z` itself, on one side only -/
-theorem RZ.addSymbol_z {r r' : Resolver} (h : RZ z r r') (v : Int) : RZ z r (r'.addSymbol z v) := by
+/-- the definition of a name of `Z`, on one side only -/
+theorem RZ.addSymbol_z {r r' : Resolver} (h : RZ Z r r') (z : String) (hz : Z z) (v : Int) : RZ Z r (r'.addSymbol z v) := by
   obtain ⟨sc, rfl⟩ := h.eq
   refine ⟨⟨sc.modify r.current _, rfl⟩, by simp [Resolver.addSymbol, Resolver.modifyCur]; exact h.size, ?_⟩
   intro i
-  show SameZ z (r.scopes.getD i default) ((sc.modify r.current _).getD i default)
+  show SameZ Z (r.scopes.getD i default) ((sc.modify r.current _).getD i default)
   rw [getD_modify']
   have hi := h.sc i
   split
   · exact ⟨hi.kind, hi.parent, hi.code, hi.table,
-      fun m hm => by rw [hi.syms m hm]; exact (alookup_ainsert_ne' z m v _ hm).symm, hi.labs, hi.plainKind⟩
+      fun m hm => by rw [hi.syms m hm]; exact (alookup_ainsert_ne' z m v _ (fun e => hm (e ▸ hz))).symm, hi.labs,
+      hi.nda, nodup_ainsert _ _ _ hi.ndb⟩
   · exact hi
 
-theorem RZ.refl (r : Resolver) (hk : ∀ i name, (r.scopes.getD i default).kind ≠ .named name) : RZ z r r :=
-  ⟨⟨r.scopes, rfl⟩, rfl, fun i => ⟨rfl, rfl, rfl, rfl, fun _ _ => rfl, fun _ _ => rfl, hk i⟩⟩
+theorem RZ.refl (r : Resolver) (hk : ∀ i, NodupKeys (r.scopes.getD i default).symbols) : RZ Z r r :=
+  ⟨⟨r.scopes, rfl⟩, rfl, fun i => ⟨rfl, rfl, rfl, rfl, fun _ _ => rfl, fun _ _ => rfl, hk i, hk i⟩⟩
 
 /-- related optional resolvers -/
-def ROpt (z : String) : Option Resolver → Option Resolver → Prop
-  | some a, some b => RZ z a b
+def ROpt (Z : String → Prop) : Option Resolver → Option Resolver → Prop
+  | some a, some b => RZ Z a b
   | none, none => True
   | _, _ => False
 
-theorem RZ.useNextScope {r r' : Resolver} (h : RZ z r r') : ROpt z r.useNextScope r'.useNextScope := by
+theorem RZ.useNextScope {r r' : Resolver} (h : RZ Z r r') : ROpt Z r.useNextScope r'.useNextScope := by
   unfold Resolver.useNextScope
   rw [h.lastUsed, h.size]
   by_cases hc : r.lastUsed + 1 < r.scopes.size
@@ -160,31 +284,64 @@ theorem RZ.useNextScope {r r' : Resolver} (h : RZ z r r') : ROpt z r.useNextScop
     exact ⟨⟨sc, rfl⟩, h.size, h.sc⟩
   · rw [if_neg hc, if_neg hc]; trivial
 
-theorem restoreScope_plain (r : Resolver) (ex : Bool) (hk : ∀ name, r.cur.kind ≠ .named name) :
-    r.restoreScope ex = (match r.cur.parent with | none => none | some p => some { r with current := p }) := by
-  unfold Resolver.restoreScope
-  simp only []
-  cases hp : r.cur.parent with
-  | none => rfl
-  | some p =>
-    simp only []
-    cases ex with
-    | false => rfl
-    | true =>
-      cases hkind : r.cur.kind with
-      | plain => rfl
-      | internal => rfl
-      | named name => exact absurd hkind (hk name)
+/-- modifying one scope on each side by functions that respect `SameZ` -/
+theorem RZ.modifyAt {r r' : Resolver} (h : RZ Z r r') (p : Nat) (f f' : ScopeRec → ScopeRec)
+    (hf : ∀ a b, SameZ Z a b → SameZ Z (f a) (f' b)) :
+    RZ Z { r with scopes := r.scopes.modify p f } { r' with scopes := r'.scopes.modify p f' } := by
+  obtain ⟨sc, rfl⟩ := h.eq
+  have hs : sc.size = r.scopes.size := h.size
+  refine ⟨⟨sc.modify p f', rfl⟩, by simp; exact hs, ?_⟩
+  intro i
+  show SameZ Z ((r.scopes.modify p f).getD i default) ((sc.modify p f').getD i default)
+  rw [getD_modify', getD_modify']
+  by_cases hc : p = i ∧ i < r.scopes.size
+  · rw [if_pos hc, if_pos ⟨hc.1, by rw [hs]; exact hc.2⟩]
+    exact hf _ _ (h.sc i)
+  · rw [if_neg hc, if_neg (fun x => hc ⟨x.1, by rw [← hs]; exact x.2⟩)]
+    exact h.sc i
 
-theorem RZ.restoreScope {r r' : Resolver} (h : RZ z r r') (ex : Bool) : ROpt z (r.restoreScope ex) (r'.restoreScope ex) := by
+theorem restoreScope_eq (r : Resolver) (ex : Bool) :
+    r.restoreScope ex = (match r.cur.parent with
+      | none => none
+      | some p =>
+        some { (match ex, r.cur.kind with
+          | true, .named name =>
+            { r with scopes := r.scopes.modify p fun ps => { ps with symbols := exportFold name r.cur.symbols ps.symbols } }
+          | _, _ => r) with current := p }) := by
+  unfold Resolver.restoreScope exportFold
+  rfl
+
+theorem RZ.restoreScope (hZ : ∀ s n, Z n → Z (s ++ "." ++ n)) {r r' : Resolver} (h : RZ Z r r') (ex : Bool) :
+    ROpt Z (r.restoreScope ex) (r'.restoreScope ex) := by
   have hc := h.cur
-  rw [restoreScope_plain r ex hc.plainKind,
-      restoreScope_plain r' ex (fun name hk => hc.plainKind name (hc.kind.trans hk)), ← hc.parent]
+  rw [restoreScope_eq, restoreScope_eq, ← hc.parent, ← hc.kind]
   cases r.cur.parent with
   | none => trivial
-  | some p => exact h.withCurrent p
+  | some p =>
+    have key : RZ Z
+        (match ex, r.cur.kind with
+          | true, .named name =>
+            { r with scopes := r.scopes.modify p fun ps => { ps with symbols := exportFold name r.cur.symbols ps.symbols } }
+          | _, _ => r)
+        (match ex, r.cur.kind with
+          | true, .named name =>
+            { r' with scopes := r'.scopes.modify p fun ps => { ps with symbols := exportFold name r'.cur.symbols ps.symbols } }
+          | _, _ => r') := by
+      cases ex with
+      | false => exact h
+      | true =>
+        cases r.cur.kind with
+        | plain => exact h
+        | internal => exact h
+        | named name =>
+          apply h.modifyAt
+          intro a b hab
+          exact ⟨hab.kind, hab.parent, hab.code, hab.table,
+            exportFold_congr hZ name _ _ _ _ hc.nda hc.ndb hc.syms hab.syms, hab.labs,
+            nodup_exportFold name _ _ hab.nda, nodup_exportFold name _ _ hab.ndb⟩
+    exact key.withCurrent p
 
-theorem RZ.setPosition {r r' : Resolver} (h : RZ z r r') (v : Int) : ROpt z (r.setPosition v) (r'.setPosition v) := by
+theorem RZ.setPosition {r r' : Resolver} (h : RZ Z r r') (v : Int) : ROpt Z (r.setPosition v) (r'.setPosition v) := by
   unfold Resolver.setPosition
   rw [h.getBus]
   cases r.getBus with
@@ -199,56 +356,56 @@ theorem RZ.setPosition {r r' : Resolver} (h : RZ z r r') (v : Int) : ROpt z (r.s
       obtain ⟨sc, rfl⟩ := h.eq
       exact ⟨⟨sc, rfl⟩, h.size, h.sc⟩
 
-theorem RZ.checkLabel {r r' : Resolver} (h : RZ z r r') (name : String) (hn : name ≠ z) (a : Address) :
+theorem RZ.checkLabel {r r' : Resolver} (h : RZ Z r r') (name : String) (hn : ¬ Z name) (a : Address) :
     checkLabel r' name a = checkLabel r name a := by
   unfold A816.checkLabel
   rw [← h.cur.labs name hn, h.valueFor name hn]
 
-theorem RZ.emitRelative {r r' : Resolver} (h : RZ z r r') (e : OpEntry) (v : Int) :
+theorem RZ.emitRelative {r r' : Resolver} (h : RZ Z r r') (e : OpEntry) (v : Int) :
     emitRelative r' e v = emitRelative r e v := by
   unfold A816.emitRelative
   rw [h.reloc, h.getBus, h.pc]
 
 /-! ## nodes -/
 
-/-- a node that does not mention `z`: no expression of it names `z`, and it is not the label / included binary `z` -/
-def FreeN (z : String) : Node → Prop
-  | .label name => name ≠ z
-  | .symbol _ e => FreeE z e
-  | .argSymbol _ e => FreeE z e
-  | .binary _ base => base ≠ z
-  | .data _ e _ => FreeE z e
-  | .opcode _ _ _ _ value _ => ∀ e, value = some e → FreeE z e
-  | .codePos e _ => FreeE z e
-  | .reloc e _ => FreeE z e
+/-- a node that mentions no name of `Z`: no expression of it does, and it is not the label / included binary of such a name -/
+def FreeN (Z : String → Prop) : Node → Prop
+  | .label name => ¬ Z name
+  | .symbol _ e => FreeE Z e
+  | .argSymbol _ e => FreeE Z e
+  | .binary _ base => ¬ Z base
+  | .data _ e _ => FreeE Z e
+  | .opcode _ _ _ _ value _ => ∀ e, value = some e → FreeE Z e
+  | .codePos e _ => FreeE Z e
+  | .reloc e _ => FreeE Z e
   | _ => True
 
 /-- the same outcome of a pass step: the same error, or the same address and related resolvers -/
-def RP (z : String) : Except Err (Resolver × Address) → Except Err (Resolver × Address) → Prop
-  | .ok (a, p), .ok (b, q) => RZ z a b ∧ p = q
+def RP (Z : String → Prop) : Except Err (Resolver × Address) → Except Err (Resolver × Address) → Prop
+  | .ok (a, p), .ok (b, q) => RZ Z a b ∧ p = q
   | .error e, .error e' => e = e'
   | _, _ => False
 
 /-- the same outcome of an emission step: the same error, or the same bytes and related resolvers -/
-def RE (z : String) : Except Err (Resolver × List Nat) → Except Err (Resolver × List Nat) → Prop
-  | .ok (a, p), .ok (b, q) => RZ z a b ∧ p = q
+def RE (Z : String → Prop) : Except Err (Resolver × List Nat) → Except Err (Resolver × List Nat) → Prop
+  | .ok (a, p), .ok (b, q) => RZ Z a b ∧ p = q
   | .error e, .error e' => e = e'
   | _, _ => False
 
-theorem rp_map {r r' : Resolver} (h : RZ z r r') (x : Except Err Address) :
-    RP z (x.map fun a => (r, a)) (x.map fun a => (r', a)) := by
+theorem rp_map {r r' : Resolver} (h : RZ Z r r') (x : Except Err Address) :
+    RP Z (x.map fun a => (r, a)) (x.map fun a => (r', a)) := by
   cases x with
   | error e => exact rfl
   | ok a => exact ⟨h, rfl⟩
 
-theorem re_map {r r' : Resolver} (h : RZ z r r') (x : Except Err (List Nat)) :
-    RE z (x.map fun a => (r, a)) (x.map fun a => (r', a)) := by
+theorem re_map {r r' : Resolver} (h : RZ Z r r') (x : Except Err (List Nat)) :
+    RE Z (x.map fun a => (r, a)) (x.map fun a => (r', a)) := by
   cases x with
   | error e => exact rfl
   | ok a => exact ⟨h, rfl⟩
 
-theorem pcAfter_rz (env : Env) (n : Node) (hn : FreeN z n) {r r' : Resolver} (h : RZ z r r') (pc : Address) :
-    RP z (pcAfter env n r pc) (pcAfter env n r' pc) := by
+theorem pcAfter_rz (hZ : ∀ s n, Z n → Z (s ++ "." ++ n)) (env : Env) (n : Node) (hn : FreeN Z n) {r r' : Resolver} (h : RZ Z r r') (pc : Address) :
+    RP Z (pcAfter env n r pc) (pcAfter env n r' pc) := by
   cases n with
   | label name => exact ⟨h.addLabel name _, rfl⟩
   | symbol name e =>
@@ -341,7 +498,7 @@ theorem pcAfter_rz (env : Env) (n : Node) (hn : FreeN z n) {r r' : Resolver} (h 
     · exact ⟨this, rfl⟩
   | scopePop =>
     simp only [pcAfter]
-    have := h.restoreScope true
+    have := h.restoreScope hZ true
     revert this
     cases r.restoreScope true <;> cases r'.restoreScope true <;> intro this
     · exact rfl
@@ -356,8 +513,8 @@ theorem pcAfter_rz (env : Env) (n : Node) (hn : FreeN z n) {r r' : Resolver} (h 
     | ok bs => exact rp_map h _
   | ascii s => exact rp_map h _
 
-theorem emitNode_rz (env : Env) (n : Node) (hn : FreeN z n) {r r' : Resolver} (h : RZ z r r') :
-    RE z (emitNode env n r) (emitNode env n r') := by
+theorem emitNode_rz (hZ : ∀ s n, Z n → Z (s ++ "." ++ n)) (env : Env) (n : Node) (hn : FreeN Z n) {r r' : Resolver} (h : RZ Z r r') :
+    RE Z (emitNode env n r) (emitNode env n r') := by
   cases n with
   | label name =>
     simp only [emitNode]
@@ -410,7 +567,7 @@ theorem emitNode_rz (env : Env) (n : Node) (hn : FreeN z n) {r r' : Resolver} (h
         | none => exact rfl
         | some ve =>
           simp only []
-          have tail : ∀ (sz : Option Nat), RE z
+          have tail : ∀ (sz : Option Nat), RE Z
               (match getValue env r ve info with
                 | .error er => .error er
                 | .ok v =>
@@ -483,7 +640,7 @@ theorem emitNode_rz (env : Env) (n : Node) (hn : FreeN z n) {r r' : Resolver} (h
     · exact ⟨this, rfl⟩
   | scopePop =>
     simp only [emitNode]
-    have := h.restoreScope false
+    have := h.restoreScope hZ false
     revert this
     cases r.restoreScope false <;> cases r'.restoreScope false <;> intro this
     · exact rfl
@@ -496,8 +653,8 @@ theorem emitNode_rz (env : Env) (n : Node) (hn : FreeN z n) {r r' : Resolver} (h
 
 /-! ## the passes -/
 
-theorem passLoop_rz (env : Env) (skip : Node → Bool) : ∀ (ns : List Node), (∀ n ∈ ns, FreeN z n) →
-    ∀ (r r' : Resolver) (pc : Address), RZ z r r' → RP z (passLoop env skip ns r pc) (passLoop env skip ns r' pc) := by
+theorem passLoop_rz (hZ : ∀ s n, Z n → Z (s ++ "." ++ n)) (env : Env) (skip : Node → Bool) : ∀ (ns : List Node), (∀ n ∈ ns, FreeN Z n) →
+    ∀ (r r' : Resolver) (pc : Address), RZ Z r r' → RP Z (passLoop env skip ns r pc) (passLoop env skip ns r' pc) := by
   intro ns
   induction ns with
   | nil => intro _ r r' pc h; exact ⟨h, rfl⟩
@@ -507,7 +664,7 @@ theorem passLoop_rz (env : Env) (skip : Node → Bool) : ∀ (ns : List Node), (
     by_cases hs : skip n = true
     · rw [if_pos hs, if_pos hs]; exact ih (fun m hm => hf m (List.mem_cons_of_mem _ hm)) r r' pc h
     · rw [if_neg hs, if_neg hs]
-      have := pcAfter_rz env n (hf n List.mem_cons_self) h pc
+      have := pcAfter_rz hZ env n (hf n List.mem_cons_self) h pc
       revert this
       cases pcAfter env n r pc with
       | error e =>
@@ -526,9 +683,9 @@ theorem passLoop_rz (env : Env) (skip : Node → Bool) : ∀ (ns : List Node), (
           exact ih (fun m hm => hf m (List.mem_cons_of_mem _ hm)) r1 r1' pc1 h1
 
 /-- the pass over a node list with one more definition of `z` somewhere in it -/
-theorem passLoop_insert (env : Env) (skip : Node → Bool) (v : Int) (b : List Node) : ∀ (a : List Node),
-    (∀ n ∈ a ++ b, FreeN z n) → ∀ (r r' : Resolver) (pc : Address), RZ z r r' →
-    RP z (passLoop env skip (a ++ b) r pc) (passLoop env skip (a ++ Node.symbolConst z v :: b) r' pc) := by
+theorem passLoop_insert (hZ : ∀ s n, Z n → Z (s ++ "." ++ n)) (env : Env) (skip : Node → Bool) (z : String) (hz : Z z) (v : Int) (b : List Node) : ∀ (a : List Node),
+    (∀ n ∈ a ++ b, FreeN Z n) → ∀ (r r' : Resolver) (pc : Address), RZ Z r r' →
+    RP Z (passLoop env skip (a ++ b) r pc) (passLoop env skip (a ++ Node.symbolConst z v :: b) r' pc) := by
   intro a
   induction a with
   | nil =>
@@ -536,10 +693,10 @@ theorem passLoop_insert (env : Env) (skip : Node → Bool) (v : Int) (b : List N
     simp only [List.nil_append]
     conv => rhs; unfold passLoop
     by_cases hs : skip (Node.symbolConst z v) = true
-    · rw [if_pos hs]; exact passLoop_rz env skip b hf r r' pc h
+    · rw [if_pos hs]; exact passLoop_rz hZ env skip b hf r r' pc h
     · rw [if_neg hs]
-      show RP z _ (passLoop env skip b (r'.addSymbol z v) pc)
-      exact passLoop_rz env skip b hf r _ pc (h.addSymbol_z v)
+      show RP Z _ (passLoop env skip b (r'.addSymbol z v) pc)
+      exact passLoop_rz hZ env skip b hf r _ pc (h.addSymbol_z z hz v)
   | cons n ns ih =>
     intro hf r r' pc h
     simp only [List.cons_append]
@@ -547,7 +704,7 @@ theorem passLoop_insert (env : Env) (skip : Node → Bool) (v : Int) (b : List N
     by_cases hs : skip n = true
     · rw [if_pos hs, if_pos hs]; exact ih (fun m hm => hf m (List.mem_cons_of_mem _ hm)) r r' pc h
     · rw [if_neg hs, if_neg hs]
-      have := pcAfter_rz env n (hf n List.mem_cons_self) h pc
+      have := pcAfter_rz hZ env n (hf n List.mem_cons_self) h pc
       revert this
       cases pcAfter env n r pc with
       | error e =>
@@ -565,17 +722,17 @@ theorem passLoop_insert (env : Env) (skip : Node → Bool) (v : Int) (b : List N
           subst h2
           exact ih (fun m hm => hf m (List.mem_cons_of_mem _ hm)) r1 r1' pc1 h1
 
-theorem RZ.reset {r r' : Resolver} (h : RZ z r r') : RZ z (resolverReset r) (resolverReset r') := by
+theorem RZ.reset {r r' : Resolver} (h : RZ Z r r') : RZ Z (resolverReset r) (resolverReset r') := by
   obtain ⟨sc, rfl⟩ := h.eq
   exact ⟨⟨sc, rfl⟩, h.size, h.sc⟩
 
-theorem RZ.lastUsed0 {r r' : Resolver} (h : RZ z r r') : RZ z { r with lastUsed := 0 } { r' with lastUsed := 0 } := by
+theorem RZ.lastUsed0 {r r' : Resolver} (h : RZ Z r r') : RZ Z { r with lastUsed := 0 } { r' with lastUsed := 0 } := by
   obtain ⟨sc, rfl⟩ := h.eq
   exact ⟨⟨sc, rfl⟩, h.size, h.sc⟩
 
 /-- the same outcome of `resolve_labels` -/
-def RR (z : String) : Except Err Resolver → Except Err Resolver → Prop
-  | .ok a, .ok b => RZ z a b
+def RR (Z : String → Prop) : Except Err Resolver → Except Err Resolver → Prop
+  | .ok a, .ok b => RZ Z a b
   | .error e, .error e' => e = e'
   | _, _ => False
 
@@ -597,9 +754,9 @@ theorem resolveLabels_eq (env : Env) (nodes : List Node) (r : Resolver) :
     | error e => rfl
     | ok q => rfl
 
-theorem RP.bindRR {x y : Except Err (Resolver × Address)} (hxy : RP z x y)
+theorem RP.bindRR {x y : Except Err (Resolver × Address)} (hxy : RP Z x y)
     {f g : Resolver × Address → Except Err Resolver}
-    (hfg : ∀ a b pc, RZ z a b → RR z (f (a, pc)) (g (b, pc))) : RR z (x >>= f) (y >>= g) := by
+    (hfg : ∀ a b pc, RZ Z a b → RR Z (f (a, pc)) (g (b, pc))) : RR Z (x >>= f) (y >>= g) := by
   cases x with
   | error e =>
     cases y with
@@ -615,34 +772,34 @@ theorem RP.bindRR {x y : Except Err (Resolver × Address)} (hxy : RP z x y)
       subst h2
       exact hfg p1 q1 p2 h1
 
-theorem passLoop_insert' (env : Env) (skip : Node → Bool) (v : Int) (a b : List Node)
-    (hf : ∀ n ∈ a ++ b, FreeN z n) (r r' : Resolver) (pc pc' : Address) (hpc : pc' = pc) (h : RZ z r r') :
-    RP z (passLoop env skip (a ++ b) r pc) (passLoop env skip (a ++ Node.symbolConst z v :: b) r' pc') := by
-  subst hpc; exact passLoop_insert env skip v b a hf r r' pc' h
+theorem passLoop_insert' (hZ : ∀ s n, Z n → Z (s ++ "." ++ n)) (env : Env) (skip : Node → Bool) (z : String) (hz : Z z) (v : Int) (a b : List Node)
+    (hf : ∀ n ∈ a ++ b, FreeN Z n) (r r' : Resolver) (pc pc' : Address) (hpc : pc' = pc) (h : RZ Z r r') :
+    RP Z (passLoop env skip (a ++ b) r pc) (passLoop env skip (a ++ Node.symbolConst z v :: b) r' pc') := by
+  subst hpc; exact passLoop_insert hZ env skip z hz v b a hf r r' pc' h
 
-theorem resolveLabels_insert (env : Env) (v : Int) (a b : List Node) (hf : ∀ n ∈ a ++ b, FreeN z n)
-    (r r' : Resolver) (h : RZ z r r') :
-    RR z (resolveLabels env (a ++ b) r) (resolveLabels env (a ++ Node.symbolConst z v :: b) r') := by
+theorem resolveLabels_insert (hZ : ∀ s n, Z n → Z (s ++ "." ++ n)) (env : Env) (z : String) (hz : Z z) (v : Int) (a b : List Node) (hf : ∀ n ∈ a ++ b, FreeN Z n)
+    (r r' : Resolver) (h : RZ Z r r') :
+    RR Z (resolveLabels env (a ++ b) r) (resolveLabels env (a ++ Node.symbolConst z v :: b) r') := by
   rw [resolveLabels_eq, resolveLabels_eq]
-  apply RP.bindRR (passLoop_insert' env Node.isSymbol v a b hf _ _ _ _ h.lastUsed0.reloc h.lastUsed0)
+  apply RP.bindRR (passLoop_insert' hZ env Node.isSymbol z hz v a b hf _ _ _ _ h.lastUsed0.reloc h.lastUsed0)
   intro a1 b1 pc1 h1
   have hr := h1.reset
-  apply RP.bindRR (passLoop_insert' env Node.isLabelOrBinary v a b hf _ _ _ _ hr.reloc hr)
+  apply RP.bindRR (passLoop_insert' hZ env Node.isLabelOrBinary z hz v a b hf _ _ _ _ hr.reloc hr)
   intro a2 b2 pc2 h2
   exact h2.reset
 
 /-! ## emission -/
 
 /-- emission states that agree on everything the writer sees (the ghost trace is not compared) -/
-structure RS (z : String) (st st' : EmitState) : Prop where
-  r : RZ z st.r st'.r
+structure RS (Z : String → Prop) (st st' : EmitState) : Prop where
+  r : RZ Z st.r st'.r
   block : st'.block = st.block
   blockAddr : st'.blockAddr = st.blockAddr
   writes : st'.writes = st.writes
   own : st'.own = st.own
 
-def RES (z : String) : Except Err EmitState → Except Err EmitState → Prop
-  | .ok a, .ok b => RS z a b
+def RES (Z : String → Prop) : Except Err EmitState → Except Err EmitState → Prop
+  | .ok a, .ok b => RS Z a b
   | .error e, .error e' => e = e'
   | _, _ => False
 
@@ -680,13 +837,13 @@ theorem emitStep_eq (env : Env) (n : Node) (st : EmitState) :
   unfold emitStep stepF postF
   rfl
 
-theorem RZ.advance {r r' : Resolver} (h : RZ z r r') (pc : Int) (a : Address) :
-    RZ z { r with pc := pc, reloc := a } { r' with pc := pc, reloc := a } := by
+theorem RZ.advance {r r' : Resolver} (h : RZ Z r r') (pc : Int) (a : Address) :
+    RZ Z { r with pc := pc, reloc := a } { r' with pc := pc, reloc := a } := by
   obtain ⟨sc, rfl⟩ := h.eq
   exact ⟨⟨sc, rfl⟩, h.size, h.sc⟩
 
-theorem stepF_rs {st st' : EmitState} (h : RS z st st') {r1 r1' : Resolver} (h1 : RZ z r1 r1') (bs : List Nat) :
-    RES z (stepF st r1 bs) (stepF st' r1' bs) := by
+theorem stepF_rs {st st' : EmitState} (h : RS Z st st') {r1 r1' : Resolver} (h1 : RZ Z r1 r1') (bs : List Nat) :
+    RES Z (stepF st r1 bs) (stepF st' r1' bs) := by
   unfold stepF
   simp only []
   by_cases hemp : bs.isEmpty = true
@@ -697,11 +854,11 @@ theorem stepF_rs {st st' : EmitState} (h : RS z st st') {r1 r1' : Resolver} (h1 
     | error e => exact rfl
     | ok a' =>
       refine ⟨?_, by show st'.block ++ bs = st.block ++ bs; rw [h.block], h.blockAddr, h.writes, h.own⟩
-      show RZ z { r1 with pc := r1.pc + bs.length, reloc := a' } { r1' with pc := r1'.pc + bs.length, reloc := a' }
+      show RZ Z { r1 with pc := r1.pc + bs.length, reloc := a' } { r1' with pc := r1'.pc + bs.length, reloc := a' }
       rw [h1.pc]; exact h1.advance _ _
 
-theorem postF_rs (n : Node) {s1 s1' : EmitState} (h : RS z s1 s1') : RES z (postF n s1) (postF n s1') := by
-  have h2 : RS z
+theorem postF_rs (n : Node) {s1 s1' : EmitState} (h : RS Z s1 s1') : RES Z (postF n s1) (postF n s1') := by
+  have h2 : RS Z
       (if n.isCodePos then
         if s1.block.isEmpty then { s1 with blockAddr := s1.r.pc, block := [] }
         else { s1 with writes := s1.writes ++ [(s1.blockAddr, s1.block)],
@@ -737,10 +894,10 @@ theorem postF_rs (n : Node) {s1 s1' : EmitState} (h : RS z s1 s1') : RES z (post
     | exact h2
     | exact ⟨h2.r, h2.block, h2.blockAddr, by show t'.writes ++ _ = t.writes ++ _; rw [h2.writes], h2.own⟩
 
-theorem emitStep_rz (env : Env) (n : Node) (hn : FreeN z n) {st st' : EmitState} (h : RS z st st') :
-    RES z (emitStep env n st) (emitStep env n st') := by
+theorem emitStep_rz (hZ : ∀ s n, Z n → Z (s ++ "." ++ n)) (env : Env) (n : Node) (hn : FreeN Z n) {st st' : EmitState} (h : RS Z st st') :
+    RES Z (emitStep env n st) (emitStep env n st') := by
   rw [emitStep_eq, emitStep_eq]
-  have he := emitNode_rz env n hn h.r
+  have he := emitNode_rz hZ env n hn h.r
   revert he
   cases emitNode env n st.r with
   | error e =>
@@ -769,15 +926,15 @@ theorem emitStep_rz (env : Env) (n : Node) (hn : FreeN z n) {st st' : EmitState}
         | error e' => intro hs; exact hs.elim
         | ok s1' => intro hs; exact postF_rs n hs
 
-theorem emitLoop_rz (env : Env) : ∀ (ns : List Node), (∀ n ∈ ns, FreeN z n) → ∀ (st st' : EmitState), RS z st st' →
-    RES z (emitLoop env ns st) (emitLoop env ns st') := by
+theorem emitLoop_rz (hZ : ∀ s n, Z n → Z (s ++ "." ++ n)) (env : Env) : ∀ (ns : List Node), (∀ n ∈ ns, FreeN Z n) → ∀ (st st' : EmitState), RS Z st st' →
+    RES Z (emitLoop env ns st) (emitLoop env ns st') := by
   intro ns
   induction ns with
   | nil => intro _ st st' h; exact h
   | cons n ns ih =>
     intro hf st st' h
     unfold emitLoop
-    have hs := emitStep_rz env n (hf n List.mem_cons_self) h
+    have hs := emitStep_rz hZ env n (hf n List.mem_cons_self) h
     revert hs
     cases emitStep env n st with
     | error e =>
@@ -790,31 +947,31 @@ theorem emitLoop_rz (env : Env) : ∀ (ns : List Node), (∀ n ∈ ns, FreeN z n
       | ok s1' => intro hs; exact ih (fun m hm => hf m (List.mem_cons_of_mem _ hm)) s1 s1' hs
 
 /-- emitting the definition of `z` changes nothing the writer sees -/
-theorem emitStep_sym (env : Env) (v : Int) {st st' : EmitState} (h : RS z st st') :
-    RES z (.ok st) (emitStep env (Node.symbolConst z v) st') := by
+theorem emitStep_sym (env : Env) (z : String) (v : Int) {st st' : EmitState} (h : RS Z st st') :
+    RES Z (.ok st) (emitStep env (Node.symbolConst z v) st') := by
   rw [emitStep_eq]
-  show RES z (.ok st) (match stepF st' st'.r [] with | .error e => .error e | .ok st1 => postF (Node.symbolConst z v) st1)
+  show RES Z (.ok st) (match stepF st' st'.r [] with | .error e => .error e | .ok st1 => postF (Node.symbolConst z v) st1)
   exact ⟨h.r, h.block, h.blockAddr, h.writes, h.own⟩
 
-theorem emitLoop_insert (env : Env) (v : Int) (b : List Node) : ∀ (a : List Node), (∀ n ∈ a ++ b, FreeN z n) →
-    ∀ (st st' : EmitState), RS z st st' →
-    RES z (emitLoop env (a ++ b) st) (emitLoop env (a ++ Node.symbolConst z v :: b) st') := by
+theorem emitLoop_insert (hZ : ∀ s n, Z n → Z (s ++ "." ++ n)) (env : Env) (z : String) (v : Int) (b : List Node) : ∀ (a : List Node), (∀ n ∈ a ++ b, FreeN Z n) →
+    ∀ (st st' : EmitState), RS Z st st' →
+    RES Z (emitLoop env (a ++ b) st) (emitLoop env (a ++ Node.symbolConst z v :: b) st') := by
   intro a
   induction a with
   | nil =>
     intro hf st st' h
     simp only [List.nil_append]
     conv => rhs; unfold emitLoop
-    have hs := emitStep_sym env v h
+    have hs := emitStep_sym env z v h
     revert hs
     cases emitStep env (Node.symbolConst z v) st' with
     | error e' => intro hs; exact hs.elim
-    | ok s1' => intro hs; exact emitLoop_rz env b hf st s1' hs
+    | ok s1' => intro hs; exact emitLoop_rz hZ env b hf st s1' hs
   | cons n ns ih =>
     intro hf st st' h
     simp only [List.cons_append]
     unfold emitLoop
-    have hs := emitStep_rz env n (hf n List.mem_cons_self) h
+    have hs := emitStep_rz hZ env n (hf n List.mem_cons_self) h
     revert hs
     cases emitStep env n st with
     | error e =>
@@ -836,11 +993,11 @@ def output (env : Env) (nodes : List Node) (r : Resolver) : Except Err (List (In
     | .ok st => .ok st.writes
 
 /-- **one more definition of a name nothing mentions, anywhere in the node list, leaves the output unchanged** -/
-theorem output_insert (env : Env) (v : Int) (a b : List Node) (hf : ∀ n ∈ a ++ b, FreeN z n) (r : Resolver)
-    (hk : ∀ i name, (r.scopes.getD i default).kind ≠ .named name) :
+theorem output_insert (hZ : ∀ s n, Z n → Z (s ++ "." ++ n)) (env : Env) (z : String) (hz : Z z) (v : Int) (a b : List Node)
+    (hf : ∀ n ∈ a ++ b, FreeN Z n) (r : Resolver) (hk : ∀ i, NodupKeys (r.scopes.getD i default).symbols) :
     output env (a ++ Node.symbolConst z v :: b) r = output env (a ++ b) r := by
   unfold output
-  have hr := resolveLabels_insert env v a b hf r r (RZ.refl r hk)
+  have hr := resolveLabels_insert hZ env z hz v a b hf r r (RZ.refl r hk)
   revert hr
   cases resolveLabels env (a ++ b) r with
   | error e =>
@@ -852,11 +1009,11 @@ theorem output_insert (env : Env) (v : Int) (a b : List Node) (hf : ∀ n ∈ a 
     | error e' => intro hr; exact hr.elim
     | ok r1' =>
       intro hr
-      have h1 : RZ z r1 r1' := hr
+      have h1 : RZ Z r1 r1' := hr
       simp only []
       unfold emitAll
-      have hs : RS z ⟨r1, [], r1.pc, [], [], []⟩ ⟨r1', [], r1'.pc, [], [], []⟩ := ⟨h1, rfl, h1.pc, rfl, rfl⟩
-      have hl := emitLoop_insert env v b a hf _ _ hs
+      have hs : RS Z ⟨r1, [], r1.pc, [], [], []⟩ ⟨r1', [], r1'.pc, [], [], []⟩ := ⟨h1, rfl, h1.pc, rfl, rfl⟩
+      have hl := emitLoop_insert hZ env z v b a hf _ _ hs
       revert hl
       cases emitLoop env (a ++ b) ⟨r1, [], r1.pc, [], [], []⟩ with
       | error e =>
@@ -868,7 +1025,7 @@ theorem output_insert (env : Env) (v : Int) (a b : List Node) (hf : ∀ n ∈ a 
         | error e' => intro hl; exact hl.elim
         | ok s' =>
           intro hl
-          have h2 : RS z s s' := hl
+          have h2 : RS Z s s' := hl
           simp only []
           rw [h2.block, h2.blockAddr]
           split
